@@ -47,6 +47,7 @@ func checkC15(w *World, r *Recorder) propInfo {
 	r.Floor("C15-H5", 1)
 	r.Floor("C15-H6", 2)
 	r.Floor("C15-H7", 2)
+	ruleNoReflectAssign(w, r, "C15-H9")
 	return info
 }
 
